@@ -1,6 +1,6 @@
 (* C18/Corr.v -- correspondence checkers (executed at Q by the shards). *)
 From Coq Require Import ZArith QArith List Bool Arith.
-From Verif Require Import Base.Num Base.Check Lib.Axis C18.Model C18.CisQ C18.ModelW C18.ModelH.
+From Verif Require Import Base.Num Base.Vec Base.Check Lib.Axis C18.Model C18.CisQ C18.ModelW C18.ModelH.
 Import ListNotations.
 
 (* np.pi as the exact rational of the double *)
@@ -181,3 +181,26 @@ Definition htol : Q := 1 # 1000000000000.
 Definition check_haar (k : case_haar) : bool :=
   Qsclose htol htol (h_fwd k) (haar r2Q (h_L k) (h_x k))
   && Qsclose htol htol (h_inv k) (ihaar r2Q (h_L k) (length (h_x k)) (h_c k)).
+
+(* ---- N-d Haar over a subset of the axes, anisotropic cell sides: values of W, and the adjoint
+        identity / right-inverse property of what W.adjoint and W.inverse RETURN, evaluated with
+        the model's W and the model's full-cell-volume inner product ---- *)
+Record case_haarnd := {
+  n_L : nat; n_shape : list nat; n_axes : list nat; n_sides : list Q;
+  n_x : list Q; n_fwd : list Q;          (* W(x) *)
+  n_xs : list (list Q);                  (* further domain elements *)
+  n_c : list Q;                          (* a coefficient vector *)
+  n_adj : list Q;                        (* W.adjoint(c) *)
+  n_inv : list Q;                        (* W.inverse(c) *)
+  n_iadj : list Q }.                     (* W.inverse.adjoint(x) *)
+Definition check_haarnd (k : case_haarnd) : bool :=
+  let W := haar_nd r2Q (n_L k) (n_shape k) (n_axes k) in
+  let sides := n_sides k in
+  Qsclose htol htol (n_fwd k) (W (n_x k))
+  (* <W x', c>_coeff = <x', W.adjoint c>_dom for x' = x and the extra elements *)
+  && forallb (fun x' => Qclose htol htol (inner_dom sides x' (n_adj k)) (dot (W x') (n_c k)))
+             (n_x k :: n_xs k)
+  (* W (W.inverse c) = c *)
+  && Qsclose htol htol (n_c k) (W (n_inv k))
+  (* <W.inverse c, x>_dom = <c, W.inverse.adjoint x>_coeff *)
+  && Qclose htol htol (dot (n_c k) (n_iadj k)) (inner_dom sides (n_inv k) (n_x k)).
